@@ -93,7 +93,7 @@ def run(chk, replay=None):
     #    (ids are bound to model entities at creation; any later change shows up as an unknown entity)
     import file_common
     t = 't' if chk.thorough else 'q'
-    file_common.run_file_check(chk, ['c03a_' + t, 'c03c_' + t], [], judge=lambda r: r['step']['a'] in ('Create', 'Open'),
+    file_common.run_file_check(chk, ['c03a_' + t, 'c03c_' + t, 'c12a_' + t], [], judge=lambda r: r['step']['a'] in ('Create', 'Open'),
                                opts={'names': 2, 'ignore_handles': True}, coverage=['Create:reject', 'Open'])
     chk.traces_validated += 0
     chk.exhaustive = False
